@@ -80,12 +80,15 @@ Print Assumptions C10_flags.
 (* --- no fabrication ------------------------------------------------------------------------------------------ *)
 (* A success is the answer to the LAST attempt and that answer is a success of the script (explicit, or the default
    beyond the end of the script); a region error handed to the caller is the region error answered to the last
-   attempt; otherwise the result is the client-made "no replica available" pseudo error or an error. *)
+   attempt; an error made of a store's answer ([RFatal]: flashback in progress / not prepared, RaftEntryTooLarge,
+   "invalid max_ts update") is made of the LAST attempt's answer and that answer is such a region error; otherwise the
+   result is the client-made "no replica available" pseudo error or an error ([RError], see C10_error_only_when_spent). *)
 Theorem C10_no_fabrication : forall c script rands sleeps evs r,
   run c script rands sleeps = (evs, r) ->
   match r with
   | RSuccess j => j + 1 = n_attempts evs /\ nth j script OSuccess = OSuccess
   | RRegionErr j => j + 1 = n_attempts evs /\ j < length script /\ is_region_err (nth j script OSuccess) = true
+  | RFatal j => j + 1 = n_attempts evs /\ j < length script /\ is_fatal (nth j script OSuccess) = true
   | RPseudo | RError => True
   end.
 Proof. intros c script rands sleeps evs r H. apply (run_result true) in H. destruct r; auto. Qed.
@@ -240,4 +243,16 @@ Example ex_async_killed_before :
   run (with_async (c_killed TPre true) false) [] [] [] = ([], RError) /\
   run (with_async (c_killed TPre true) true) [] [] [] = ([EAtt 0 false false false], RSuccess 0) /\
   run (with_async (c_killed (TAtt 0) true) true) (repeat (ORpcErr Reachable) 5) [] [] = run (with_async (c_killed (TAtt 0) true) false) (repeat (ORpcErr Reachable) 5) [] [].
+Proof. vm_compute. auto. Qed.
+
+(* rarely produced answers: RecoveryInProgress = invalidate, back off, hand the region error to the caller; flashback in progress
+   on a replica read that hit a follower = retry on the leader, otherwise an error; RegionNotInitialized = back off and retry *)
+Example ex_rare_answers :
+  run c0 [ORecovery] [] [50]%N = ([EAtt 0 false false false; EBo BoRecovery 50], RRegionErr 0) /\
+  run c0 [OFlashback] [] [] = ([EAtt 0 false false false], RFatal 0) /\
+  run (mkCfg RTFollower false true false false false false 100000%N true (c_reps c0) false TpTiKV TNever TNever true 0 None false)
+      [OFlashback; OStaleCommand] [0] [] = ([EAtt 1 true false false; EAtt 0 false false true; EAtt 0 false false true], RSuccess 2) /\
+  run c0 [ONotInitialized; OReadIndexNotReady; OMerging] [] [2; 2; 4]%N =
+    ([EAtt 0 false false false; EBo BoNotInit 2; EAtt 0 false false true; EBo BoRegionScheduling 2; EAtt 0 false false true;
+      EBo BoRegionScheduling 4; EAtt 0 false false true], RSuccess 3).
 Proof. vm_compute. auto. Qed.
